@@ -16,7 +16,7 @@ CLAIM = dict(
          'characters) yields a document that expat accepts and that carries exactly the model tree; RLE index elements (decimal, hex and float X values, incl. values a last bit or 1e-10 off the run) expand to the original values.',
     note='Trusted: z3, CrossHair, py2smt with its model of str iteration / ord / dict lookup / str.encode(ascii, xmlcharrefreplace) / f-string numeric reference; '
          'expat (oracle parser on concrete output). Outside: whole documents produced from log files by ScanHTML, LisToHtml, LASToHTML, SVGWriter/Plot (file I/O, numpy): '
-         'only the shared writer and the RLE index writer are decided.',
+         'only the shared writer, the RLE index writer and the structure of the RP66V1 XML index (entries per table / frame type, run-length entries) are decided.',
 )
 META = dict(
     explanation='_encode is encoded per character (strings are handled character-wise by the loop in _encode, which is part of the encoded AST); '
@@ -138,7 +138,12 @@ def obligations(tier):
         Ob('rle_index_entries_expand_small', 'ch', 'integer sequences of length 1..3 over -1..2 (decimal) and ascending non-negative positions (hex)',
            ['RP66V1.IndexXML.xml_rle_write', 'common.Rle.create_rle', 'util.XmlWrite.Element'], harness='C18_xml', func='rle_entries_small', timeout=170 if q else 600),
         Ob('rle_index_entries_expand', 'ch', 'integer sequences of length 1..4 over -3..3 (decimal) and ascending non-negative positions (hex)',
-           ['RP66V1.IndexXML.xml_rle_write', 'common.Rle.create_rle', 'util.XmlWrite.Element'], harness='C18_xml', func='rle_entries', timeout=2400, tiers=('thorough',)),
+           ['RP66V1.IndexXML.xml_rle_write', 'common.Rle.create_rle', 'util.XmlWrite.Element'], harness='C18_xml', func='rle_entries', timeout=2400, tiers=('thorough',), parts=7),
+        Ob('xml_index_one_entry_per_table_and_frame_type', 'ch', 'reference-encoded RP66V1 files: 1..2 logical files, 1..2 frame types with 1..6 frame records in 5 interleavings, float X '
+           '(regular / irregular / 0.1 n), optional producer-private table (record type 128), one visible record per logical record or shared; index written with private on/off',
+           ['RP66V1.IndexXML.write_logical_file_sequence_to_xml', 'write_logical_file_to_xml', 'log_pass_to_XML', 'frame_array_to_XML', 'frame_channel_to_XML', 'xml_rle_write',
+            '_write_xml_eflr_object', 'xml_write_value', 'RP66V1.core.LogicalFile.LogicalIndex', 'common.Rle.create_rle'],
+           harness='C18_index', func='index_xml', timeout=170 if q else 600, parts=15, unblock=True, stubs=['scratch file for LogicalIndex (path based API)']),
         Ob('rle_float_index_entries_expand', 'ch', 'float X sequences of length 2..5: 4 start values (0.1, 1000, 1.6e12, negative) x 4 strides x per-value deviation from the '
            'extrapolated value (none, one unit in the last place, 1e-10 and 1e-7 relative, a quarter stride)',
            ['RP66V1.IndexXML.xml_rle_write', 'common.Rle.create_rle', 'common.Rle.RLEItem.add/values', 'util.XmlWrite.Element'], harness='C18_xml', func='rle_float_entries',
